@@ -736,7 +736,7 @@ func main() {
 	vf.Main(vf.Spec{
 		ID:    "C15",
 		Level: "exploration",
-		Rule: "exhaustive product: HMMs with m in {1,2,3} states, pi and every transition row from all stochastic vectors over a dyadic alphabet (zeros included), all m^m state->emission-class maps, start and final restriction each in {none,{0},{m-1},{0,1}}, all emission tables over a small alphabet (zero emissions included), all observation sequences up to the length bound (generic route: one representative per symbol relabelling), all sequences of non-empty state subsets for Posterior; mixtures: all weight vectors, component likelihood tables and component subsets. " +
+		Rule: "exhaustive product: HMMs with m in {1,2,3} states, pi and every transition row from all stochastic vectors over a dyadic alphabet (zeros included), all m^m state->emission-class maps, start and final restriction each in {none,{0},{m-1},{0,1}}, all emission tables over a small alphabet (zero emissions included), all observation sequences up to the length bound (generic route: one representative per symbol relabelling), all sequences of non-empty state subsets for Posterior (up to length 3 in the main sweeps, lengths 4 and 5 - thorough 6 - in dedicated m=2 sweeps); mixtures: all weight vectors, component likelihood tables and component subsets. " +
 			"Structured transition matrices: constrained HMMs (no constraint and every single equality constraint between two cells of the matrix; for m=2 every partition of the four cells into tie groups) and hierarchical HMMs (every tree over contiguous state ranges without unary nodes), built through generic.NewChmmTransitionMatrix / NewHhmmTransitionMatrix + NewHmm and end to end through vectorDistribution / matrixDistribution NewConstrainedHmm / NewHierarchicalHmm; their matrices range over ALL stochastic matrices of the row alphabet that satisfy the ties (row alphabets: dyadic quarters for m<=2; for m=3 {0,1/2}, {0,1/2,1}, {0,1/4,1/2} and the full-support rows over {1/4,1/2} - only with unequal non-zero entries does a tied last transition differ from a row-wise renormalised one), start and final restriction each over none and every non-empty subset of the states (full product for m<=2 and in the thorough tier; m=3 quick: (any start, no final), (no start, any final), (start = final), on the full-support lattice no start restriction), sequences of length 1..4 (end-to-end routes 1..3, matrix route m=3 1..2), identity state map (m<=2 also the constant map). On every model the configuration calls are observed too (model_level_checks): base transition matrix and pi read back after construction equal the supplied ones; SetStartStates/SetFinalStates leave the base transition matrix (public field and GetParameters) bitwise unchanged, SetFinalStates leaves pi unchanged; the last-transition matrix has no NaN, no mass on non-final states and unit row sums. " +
 			"Every case runs the real library and is compared with a brute-force sum over all m^n hidden paths. A case is counted non-trivial when the data has positive probability and at least two hidden paths have positive probability (so sums/maxima really range over several paths); cases are distinct by construction of the product",
 		Assume: []string{
